@@ -14,8 +14,24 @@ from maze_dataset.maze.lattice_maze import LatticeMaze, SolvedMaze, TargetedLatt
 from mzverif import model as M  # noqa: E402
 
 
-def lattice(g: dict, meta: dict | None = None) -> LatticeMaze:
-    return LatticeMaze(connection_list=M.g_cl(g), generation_meta=meta)
+def cl_with_layout(g: dict, layout: str | None = None) -> np.ndarray:
+    """the connection array of g in one of the memory layouts a caller's array may have - same shape, same values, other strides:
+    C order, Fortran order, or a view obtained by moving the direction axis of an (rows, cols, 2) array to the front. Chosen from
+    the graph itself when not given (a pure function of the case, so replay is exact)."""
+    cl = M.g_cl(g)
+    if layout is None:
+        from mzverif.core import digest
+
+        layout = ("C", "C", "C", "F", "moveaxis")[digest([g["r"], g["c"], list(g["cl"])]) % 5]
+    if layout == "F":
+        return np.asfortranarray(cl)
+    if layout == "moveaxis":
+        return np.moveaxis(np.ascontiguousarray(np.moveaxis(cl, 0, -1)), -1, 0)
+    return cl
+
+
+def lattice(g: dict, meta: dict | None = None, layout: str | None = None) -> LatticeMaze:
+    return LatticeMaze(connection_list=cl_with_layout(g, layout), generation_meta=meta)
 
 
 def _layout(arr: np.ndarray, dtype) -> np.ndarray:
